@@ -26,7 +26,7 @@ def main():
                 ids, dof, vals = w._generate_constraints(attr)
             dof = np.asarray(dof)
             out.append({'id': t['id'], 'ids': [int(i) for i in ids],
-                        'dof': [[int(a) for a in row] for row in dof.reshape(len(ids), -1)],
+                        'dof': [[int(a) for a in np.atleast_1d(row)] for row in dof] if len(ids) else [],
                         'values': [float(v).hex() for v in vals]})
         except Exception as e:  # noqa
             out.append({'id': t['id'], 'error': f'{type(e).__name__}: {e}'[:200]})
